@@ -269,6 +269,9 @@ func selectDeflate(extensions []websocketExtension, mode CompressionMode) (*comp
 
 func acceptDeflate(ext websocketExtension, mode CompressionMode) (*compressionOptions, bool) {
 	copts := mode.opts()
+	if deflateParamsDuplicated(ext.params) {
+		return nil, false
+	}
 	for _, p := range ext.params {
 		switch p {
 		case "client_no_context_takeover":
@@ -283,12 +286,41 @@ func acceptDeflate(ext websocketExtension, mode CompressionMode) (*compressionOp
 		}
 
 		if strings.HasPrefix(p, "client_max_window_bits=") {
+			if !validDeflateWindowBits(strings.TrimPrefix(p, "client_max_window_bits=")) {
+				return nil, false
+			}
 			// We can't adjust the deflate window, but decoding with a larger window is acceptable.
 			continue
 		}
 		return nil, false
 	}
 	return copts, true
+}
+
+// validDeflateWindowBits reports whether v is a valid max_window_bits value.
+// See https://tools.ietf.org/html/rfc7692#section-7.1.2
+func validDeflateWindowBits(v string) bool {
+	if len(v) >= 2 && v[0] == '"' && v[len(v)-1] == '"' {
+		v = v[1 : len(v)-1]
+	}
+	switch v {
+	case "8", "9", "10", "11", "12", "13", "14", "15":
+		return true
+	}
+	return false
+}
+
+// deflateParamsDuplicated reports whether a permessage-deflate parameter name occurs more than once.
+// See https://tools.ietf.org/html/rfc7692#section-7.1
+func deflateParamsDuplicated(params []string) bool {
+	for i, p := range params {
+		for _, p2 := range params[:i] {
+			if strings.SplitN(p, "=", 2)[0] == strings.SplitN(p2, "=", 2)[0] {
+				return true
+			}
+		}
+	}
+	return false
 }
 
 func headerContainsTokenIgnoreCase(h http.Header, key, token string) bool {
